@@ -275,6 +275,11 @@ func (s *XModel) GetWithTxStatus(bucket string, key []byte) (*kledger.VersionedD
 func (s *XModel) Select(bucket string, startKey []byte, endKey []byte) (kledger.XMIterator, error) {
 	rawStartKey := makeRawKey(bucket, startKey)
 	rawEndKey := makeRawKey(bucket, endKey)
+	if endKey == nil {
+		// an open end is the end of the bucket, as the verifier's MemXModel.Select
+		// reads it; bucket+"/" itself would make the range empty
+		rawEndKey = append([]byte(bucket), BucketSeperator[0]+1)
+	}
 	iter := &XMIterator{
 		bucket: bucket,
 		iter:   s.extUtxoTable.NewIteratorWithRange(rawStartKey, rawEndKey),
